@@ -17,6 +17,7 @@ struct C01Call
   int from_task_n;
   int prefill_block;   // 1: first occupy every worker thread with a long-running scheduled closure
   int throw_at;        // >= 0: the body throws at this index; the application catches the exception (tbb / serial lanes)
+  int functor;         // parallel_for only: 0 lambda capturing references, 1 temporary lambda owning heap state, 2 temporary std::function, 3 named function object
   int prefill;         // fire-and-forget closures scheduled right before the call (fills the caller's task pipe)
 };
 struct C01Plan
@@ -39,6 +40,7 @@ void c01_wide_block(int h, unsigned long long begin, unsigned long long end, int
 void c01_body_exit(int h);
 void c01_slot_check(int h, long long idx, int value);
 void c01_prefill_ran(void);
+void c01_state_lost(int h, long long idx, int where);   // the function object the body runs on has lost the state it was created with
 void c01_blocker(void);
 void c01_wait_blockers(int n);
 void c01_release_blockers(void);
